@@ -187,6 +187,30 @@ let ldec_s cf layout bs =
   | Panic -> "Panic"
   | OutOfFuel -> "Hang"
 
+(* membership of the decoded value in the proved class (CanonClass.v): 1 in class with these very bytes,
+   0 outside, 2 the bytes do not decode to (v, nothing left) *)
+let canon_s name bs =
+  match run_canon (coq_string name) bs with
+  | None -> "NoSuchType"
+  | Some n -> string_of_n n
+
+let lcanon_s cf layout bs =
+  let fs = parse_layout layout in
+  let fuel = nat_of_int 64 in
+  let same g = if g = bs then "1" else "0" in
+  if cf = "-" then
+    (match dec_plain fuel fs bs with
+     | Ok (v, []) -> (match canon_struct fs v with Some g -> same g | None -> "0")
+     | _ -> "2")
+  else
+    (match String.split_on_char ',' cf with
+     | [c; i] ->
+         let cm = { c_class = n_of_string c; c_instr = n_of_string i; c_fields = fs } in
+         (match dec_cmd fuel cm bs with
+          | Ok (v, []) -> (match canon_cmd cm v with Some g -> same g | None -> "0")
+          | _ -> "2")
+     | _ -> failwith "cf")
+
 let read_s chunks eof k =
   let cs = if chunks = "-" then [] else
     List.map (fun c -> if c = "P" then Pend else Data (unhex c)) (String.split_on_char ',' chunks) in
@@ -366,6 +390,8 @@ let () =
             done
         | "client" -> emit (client_s f.(1) f.(2) f.(3))
         | "ldec" -> emit (ldec_s f.(1) f.(2) (unhex f.(3)))
+        | "canon" -> emit (canon_s f.(1) (unhex f.(2)))
+        | "lcanon" -> emit (lcanon_s f.(1) f.(2) (unhex f.(3)))
         | "seq" -> emit (seq_s f.(1) (unhex f.(2)) (unhex f.(3)))
         | "uploadm" -> emit (upload_s f.(1) f.(2) f.(3) (unhex f.(4)))
         | "wr_range" -> for k = int_of_string f.(1) to int_of_string f.(2) do emit (wr_s k) done
